@@ -126,6 +126,12 @@ func (nc *nilCtx) mayBeNil0(v ssa.Value) bool {
 			if outside && isXMLModelStruct(a.X.Type()) {
 				// constructor invariant for registered providers
 				if owner == "md.EntityDescriptorType" && fv.Name() == "SPSSODescriptor" && nc.spInvOK {
+					// the metadata object of a ServiceProvider (whatever variable or cache the provider came from)
+					if ld, ok := a.X.(*ssa.UnOp); ok {
+						if mfa, ok := ld.X.(*ssa.FieldAddr); ok && fieldOwner(mfa.X.Type()) == "serviceprovider.ServiceProvider" && fieldVar(mfa.X.Type(), mfa.Field).Name() == "Metadata" {
+							return false
+						}
+					}
 					fromSP := true
 					for l := range base {
 						if !strings.Contains(l, "GetEntityByID#0.Metadata") && !strings.HasPrefix(l, "param:serviceprovider.") && !strings.HasPrefix(l, "const:") {
@@ -465,6 +471,10 @@ func checkC09(cx *Ctx, r *Report) {
 				switch x := in.(type) {
 				case *ssa.TypeAssert:
 					nAssert++
+					if !x.CommaOk && cx.assertFromTypedContainer(vf, x) {
+						r.Ok("R-ASSERT", w.FuncKey(fn)+":"+x.AssertedType.String(), w.InstrPos(x), "value comes from a sync.Pool / sync.Map that only ever receives values of this type")
+						continue
+					}
 					if !x.CommaOk {
 						r.Fail("R-ASSERT", w.FuncKey(fn)+":"+x.AssertedType.String(), w.InstrPos(x), "single-result type assertion to "+x.AssertedType.String()+" panics when the value has another dynamic type (e.g. a key type that does not fit the SigAlg of the request)")
 					} else {
@@ -692,6 +702,42 @@ func (cx *Ctx) bceLocalProof(n ast.Node, fn *ast.FuncDecl) (bool, string) {
 	if !ok {
 		return false, "slice expression without proof"
 	}
+	// x[i] inside the less function handed to sort.Slice / sort.SliceStable(x, func(i, j int) bool {...}):
+	// the sort package only calls less with indexes of x
+	if id, ok := ix.Index.(*ast.Ident); ok {
+		okSort := false
+		ast.Inspect(fn.Body, func(m ast.Node) bool {
+			call, ok := m.(*ast.CallExpr)
+			if !ok || len(call.Args) != 2 {
+				return true
+			}
+			sel, ok := call.Fun.(*ast.SelectorExpr)
+			if !ok || !(sel.Sel.Name == "Slice" || sel.Sel.Name == "SliceStable") {
+				return true
+			}
+			if pk, ok := sel.X.(*ast.Ident); !ok || pk.Name != "sort" {
+				return true
+			}
+			lit, ok := call.Args[1].(*ast.FuncLit)
+			if !ok || lit.Pos() > ix.Pos() || lit.End() < ix.End() {
+				return true
+			}
+			if exprPath(call.Args[0]) == "" || exprPath(call.Args[0]) != exprPath(ix.X) {
+				return true
+			}
+			for _, f := range lit.Type.Params.List {
+				for _, nm := range f.Names {
+					if nm.Name == id.Name {
+						okSort = true
+					}
+				}
+			}
+			return true
+		})
+		if okSort {
+			return true, "index parameter of the less function of sort.Slice over the same slice"
+		}
+	}
 	lit, ok := ix.Index.(*ast.BasicLit)
 	if !ok || lit.Kind != token.INT {
 		return false, "index is not a constant"
@@ -805,4 +851,114 @@ func exprPath(e ast.Expr) string {
 		return exprPath(x.X)
 	}
 	return ""
+}
+
+// assertFromTypedContainer: the operand of a single-result assertion comes only from sync.Pool.Get / sync.Map
+// lookups of containers into which only values of exactly the asserted type are ever put.
+func (cx *Ctx) assertFromTypedContainer(vf *VFlow, ta *ssa.TypeAssert) bool {
+	w := cx.W
+	var getCalls []*ssa.Call
+	var collect func(v ssa.Value, depth int) bool
+	collect = func(v ssa.Value, depth int) bool {
+		if depth > 6 {
+			return false
+		}
+		switch x := v.(type) {
+		case *ssa.Call:
+			switch calleeName(x) {
+			case "(*sync.Pool).Get", "(*sync.Map).Load", "(*sync.Map).LoadOrStore", "(*sync.Map).LoadAndDelete", "(*sync.Map).Swap":
+				getCalls = append(getCalls, x)
+				return true
+			}
+			return false
+		case *ssa.Extract:
+			if x.Index != 0 {
+				return false
+			}
+			return collect(x.Tuple, depth+1)
+		case *ssa.Phi:
+			for _, e := range x.Edges {
+				if !collect(e, depth+1) {
+					return false
+				}
+			}
+			return true
+		case *ssa.UnOp:
+			if cell := cx.Fx.ownerCell(x.X); cell != nil {
+				st := cx.Fx.storesToCell(cell)
+				if len(st) == 0 {
+					return false
+				}
+				for _, s := range st {
+					if !collect(s, depth+1) {
+						return false
+					}
+				}
+				return true
+			}
+		}
+		return false
+	}
+	if !collect(ta.X, 0) || len(getCalls) == 0 {
+		return false
+	}
+	want := ta.AssertedType
+	for _, g := range getCalls {
+		cont := vf.objLabels(g.Call.Args[0], 0)
+		// every value put into a container that may be this one has the asserted type
+		for _, fn := range w.Funcs {
+			for _, c := range callsIn(fn) {
+				var val ssa.Value
+				switch calleeName(c) {
+				case "(*sync.Pool).Put":
+					val = c.Common().Args[1]
+				case "(*sync.Map).Store", "(*sync.Map).LoadOrStore", "(*sync.Map).Swap":
+					val = c.Common().Args[2]
+				default:
+					continue
+				}
+				lvf := vf
+				if !vf.scope[fn] {
+					lvf = cx.newVFlow(w.FuncKey(fn), fn)
+				}
+				same := false
+				for l := range lvf.objLabels(c.Common().Args[0], 0) {
+					if _, ok := cont[l]; ok || strings.HasPrefix(l, "param:") {
+						same = true
+					}
+				}
+				if !same {
+					continue
+				}
+				mi, ok := val.(*ssa.MakeInterface)
+				if !ok || !types.Identical(mi.X.Type(), want) {
+					return false
+				}
+			}
+		}
+		// a pool's New function
+		if calleeName(g) == "(*sync.Pool).Get" {
+			for _, fn := range w.Funcs {
+				for _, st := range cx.Fx.info(fn).stores {
+					fa, ok := st.Addr.(*ssa.FieldAddr)
+					if !ok || fieldOwner(fa.X.Type()) != "sync.Pool" || fieldVar(fa.X.Type(), fa.Field).Name() != "New" {
+						continue
+					}
+					tg, ok := cx.Fx.funcTargets(st.Val)
+					if !ok {
+						return false
+					}
+					for _, nf := range tg {
+						for _, ret := range returnsOf(nf) {
+							mi, ok := ret.Results[0].(*ssa.MakeInterface)
+							if !ok || !types.Identical(mi.X.Type(), want) {
+								return false
+							}
+						}
+					}
+				}
+			}
+		}
+	}
+	return true
 }
